@@ -1200,6 +1200,24 @@ func (env *Env) evalModTargets(e SExpr) ([]modTarget, error) {
 					return ts, nil
 				}
 				return []modTarget{{heap: te.elemHeap(el), sort: arraySort(SInt, arraySort(SInt, te.SortOf(el))), base: sArr(x.T)}}, nil
+			case "pointee":
+				// pointee(v): everything stored in the object that interface value v points to (e.g. the target of a decoder)
+				x, err := env.eval(c.Args[0])
+				if err != nil {
+					return nil, err
+				}
+				if x.T.Sort == SIface && strings.HasPrefix(x.T.S, "(mkIface ") {
+					parts := splitSexp(x.T.S[len("(mkIface ") : len(x.T.S)-1])
+					if len(parts) == 2 {
+						if n, ok := parseNum(parts[0]); ok && n.IsInt64() && n.Int64() >= 1 && int(n.Int64()) <= len(te.tagList) {
+							dt := te.tagList[n.Int64()-1]
+							if pt := derefType(dt); pt != nil {
+								return env.targetsOfLoc(te.PtrLoc(pt, Term{parts[1], SInt})), nil
+							}
+						}
+					}
+				}
+				return []modTarget{{heap: "*", all: true}}, nil
 			case "entries":
 				x, err := env.eval(c.Args[0])
 				if err != nil {
